@@ -746,7 +746,8 @@ def main():
     chk.assumptions = ["fragment: expressions (arithmetic, comparison chains, and/or/not, in, ~, if-expressions, lists, MAP literals, subscripts and attributes of lists / maps / loop, filters length/upper/lower/trim/capitalize/string/abs/default/first/last/join/list/items/..., tests defined/undefined/odd/even/none/mapping, range), printing of nested lists and maps (Python-style repr), if/elif/else, for with else / filter / loop variable / break / continue over lists, strings and maps, set and with (also with a two-name unpacking target), set-block (with filter), macros with defaults and keyword arguments, call blocks with caller(), filter blocks; ASCII strings; integers far from the i128 bounds",
                        "bytecode level: forward simulation proved for the whole Lang syntax (expressions incl. calls, all statements incl. filtered loops, macros, call blocks), for successful runs (same final state) and for failing runs (same error kind; nothing about the output before the error); everything outside the Lang syntax: stream correspondence + three-way output agreement only",
                        "maps: ValueMap of the default build (BTreeMap: entries in key order; the harness is built without feature preserve_order), keys of the fragment are scalars (strings, ints, bools, none), context maps have string keys (JSON); `m|items` yields [key, value] LISTS in the model where the engine yields 2-tuples (same items; printed with parentheses, unequal to lists): the generators only unpack them; `|last` refuses maps in the engine (filters.rs::last accepts sequences and iterables only) although `|first` accepts them: modelled as found, not generated",
-                       "unpacking set / with with a two-name target are in the Lang syntax (any right-hand side); tuple right-hand sides, three or nested targets are outside it: the engine's rendering is compared with the reference interpreter's verdict on an element-wise equivalent program of the fragment (sequential sets through fresh temporaries)"]
+                       "unpacking set / with with a two-name target are in the Lang syntax (any right-hand side); tuple right-hand sides, three or nested targets are outside it: the engine's rendering is compared with the reference interpreter's verdict on an element-wise equivalent program of the fragment (sequential sets through fresh temporaries)",
+                       "loop.previtem / nextitem / depth / depth0 / cycle / changed are outside Lang's loop object (7 attributes): compared engine-side only with the oracle _attr_val of this file (position in the iterated sequence; trusted Python), for iterables with a known length"]
     okm, blog = build_models("C03")
     proofs_ok = chk.run_proofs()
     okc, clog = cargo_build(["prog"], release=False)
@@ -923,7 +924,7 @@ def main():
     chk.cov["evaluations"] = 2 * len(progs) + extra_ctx_runs
     chk.cov["distinct_nontrivial"] = len(nontriv)
     chk.cov["programs"] = len(progs)
-    chk.cov["rule"] = ("typed random core-fragment programs (depth 2-4) x random contexts of ints/strings/bools/lists/maps, the map_family of this file under all four undefined modes, the exhaustive closure/scoping family of tools/proggen.py::closure_family, the families of this file (sibling_family: macros of one scope sharing free names, one re-binds a name locally, the others are called afterwards, recursion + call blocks; loop_and_rebinding_family: `loop` in the filter / subject / else part of an inner loop, one name called while bound to different callables; equivalence_family: unpacking set / with and loops over strings through their element-wise equivalents inside the fragment), plus standalone expressions `{{ e }}` (depth 2-4, "
+    chk.cov["rule"] = ("typed random core-fragment programs (depth 2-4) x random contexts of ints/strings/bools/lists/maps, the map_family of this file under all four undefined modes, the exhaustive closure/scoping family of tools/proggen.py::closure_family, the families of this file (sibling_family: macros of one scope sharing free names, one re-binds a name locally, the others are called afterwards, recursion + call blocks; loop_and_rebinding_family: `loop` in the filter / subject / else part of an inner loop, one name called while bound to different callables; equivalence_family: unpacking set / with and loops over strings through their element-wise equivalents inside the fragment; loop_attr_family: all 13 loop attributes in every read order against an oracle on the iterated sequence, engine only), plus standalone expressions `{{ e }}` (depth 2-4, "
                        "possibly undefined variables, all four undefined modes); each rendered by the engine (debug+release), by the extracted reference interpreter and by the "
                        "extracted model VM on the model compiler's stream; each program's real instruction stream compared with the model compiler's; "
                        "non-trivial = distinct (program, context, mode) rendering to non-empty output without error, programs with >= 3 statement nodes")
@@ -964,7 +965,11 @@ def main():
         chk.violation("engine output differs from the reference semantics",
                       {"template": src, "context": ctx, "mode": mode, "profile": "release" if rel else "debug", "engine": r.get("render", r),
                        "reference": ("".join(chr(c) for c in mm[2:]) if mm[:1] == [0] else mm), "ast": repr(small_body)})
-    for src, ctx, exp, kind, rel, rr in sorted(or_bad, key=lambda t: len(t[0]))[:3]:
+    seen_or = set()
+    for src, ctx, exp, kind, rel, rr in sorted(or_bad, key=lambda t: len(t[0])):
+        if src in seen_or or len(seen_or) >= 3:
+            continue
+        seen_or.add(src)
         chk.violation("loop attributes do not describe the sequence actually iterated (value depends on which attributes were read before)",
                       {"template": src, "oracle_template": src, "context": ctx, "kind": kind, "profile": "release" if rel else "debug",
                        "engine": rr.get("ok", rr), "expected_output": exp, "ast": repr([("raw", "x")]), "mode": "lenient"})
